@@ -90,7 +90,7 @@ func init() {
 		}
 		ex := defaultExplore(seed, 0, 0)
 		if r.Chance(0.3) {
-			// store faults strike the writers' statements (a failed read is not judged)
+			// store faults strike writers and readers alike
 			ex = defaultExplore(seed, 0.03, 2, FDeadlock, FStmtErr, FConnLost, FCommitClean, FCommitAmbiguous)
 		}
 		ex.PreemptP = 0.5
@@ -188,8 +188,13 @@ func checkVolumeReads(r *runner) []Violation {
 		st []volState
 	}{}
 	for _, or := range r.results {
-		if or.Op.Kind != KRaw || or.Op.Raw == nil || or.Op.Raw.Method != "GET" || or.Out.Class != "ok" || len(or.Faults) > 0 {
+		// (a read struck by an injected fault may fail; one that is nevertheless answered 200 is judged like any other:
+		// a fault may cost an answer, never make it wrong)
+		if or.Op.Kind != KRaw || or.Op.Raw == nil || or.Op.Raw.Method != "GET" || or.Out.Class != "ok" {
 			continue
+		}
+		if len(or.Faults) > 0 {
+			r.w.probe("volume_read_answered_despite_a_fault")
 		}
 		path, _, _ := strings.Cut(or.Op.Raw.Path, "?")
 		parts := strings.Split(strings.Trim(path, "/"), "/")
